@@ -3,7 +3,6 @@ package sim
 import (
 	"bytes"
 	"context"
-	"encoding/hex"
 	"fmt"
 	"math"
 	"runtime/debug"
@@ -1181,14 +1180,7 @@ func (w *World) doRefused() {
 	// entries are deterministic: a replica in the state another replica of the same writer was in, appending
 	// the same payload, produces the very entry that other replica already holds. Refusing it must not
 	// disturb that entry (its block, its place in other logs)
-	myKey := hex.EncodeToString(n.W.ID.PublicKey)
-	myHeads := joinS(w.M.Heads(n.Set))
-	var twins []*MEntry
-	for _, h := range w.M.Order {
-		if me := w.M.Reg[h]; !n.Set[h] && me.ClockID == myKey && me.LogID == w.LogID && joinS(sortedCopy(me.Next)) == myHeads {
-			twins = append(twins, me)
-		}
-	}
+	twins := w.twinsFor(n)
 	if k := r.Choose("refuse-twin", 2*len(twins)+1); k < len(twins) {
 		pl = []byte(twins[k].Payload)
 		r.Probe("refused-append-of-an-entry-another-replica-holds")
